@@ -1,6 +1,7 @@
 package hdr
 
 import (
+	"bytes"
 	"context"
 	"fmt"
 	"math/rand"
@@ -112,8 +113,42 @@ func (g *genState) submit(hd *wire.BlockHeader, note string) {
 		}
 	}
 	oldTip := m.Tip
+	// C08: a refusal must also leave what a subsequent Save writes unchanged
+	var imgBefore map[string][]byte
+	if g.gc.SaveAroundRefusal && len(g.e.Insts) == 1 && g.rng.Intn(3) == 0 {
+		if exp := m.Expected(hd); !exp["accepted"] {
+			g.e.Save()
+			g.shape.WriteString("S;")
+			if !g.e.Failed() && len(g.e.live()) == 1 {
+				imgBefore = g.e.Insts[0].Store.Image()
+			}
+		}
+	}
 	classes := g.e.Submit(hd, note)
 	cl := classes[len(classes)-1]
+	if imgBefore != nil && cl != "accepted" && !g.e.Failed() && len(g.e.live()) == 1 {
+		g.e.Save()
+		g.shape.WriteString("S;")
+		if !g.e.Failed() {
+			imgAfter := g.e.Insts[0].Store.Image()
+			diff := ""
+			for k, v := range imgBefore {
+				if w, ok := imgAfter[k]; !ok || !bytes.Equal(v, w) {
+					diff = k
+				}
+			}
+			for k := range imgAfter {
+				if _, ok := imgBefore[k]; !ok {
+					diff = k
+				}
+			}
+			g.e.Stats["save_images_compared_around_refusal"]++
+			if diff != "" {
+				g.e.fail("C08", "refusal-leaves-subsequent-save-identical", "save-image-changed-by/"+cl+"/"+keyKind(diff),
+					fmt.Sprintf("submission answered %q, but the bytes written by Save differ afterwards (key %s)", cl, diff))
+			}
+		}
+	}
 	fmt.Fprintf(&g.shape, "s%d:%x:%s;", pi, hd.Bits&0xffffff, cl)
 	if cl != "accepted" {
 		g.nonAccept++
